@@ -135,7 +135,10 @@ pub struct Rcpt {
 
 #[derive(Clone, Debug, Serialize, Deserialize)]
 pub struct RxPlan {
-    pub serial: u64,
+    /// the source as the user configures it (main() derives the sensor's serial
+    /// number and reference from it through Source::serial / sensor::sensors)
+    #[serde(default)]
+    pub source: String,
     pub reference: Option<(f64, f64)>,
     /// 0 one chunk per frame, 1 random cuts, 2 one byte per read, 3 bursts of >= 1 kB,
     /// 4 batches: everything that arrives within an interval of 0.05-2 s is delivered at its end
@@ -345,7 +348,13 @@ impl Scenario for Pipeline {
                 }
             };
             receivers.push(RxPlan {
-                serial: 1000 + 17 * j as u64,
+                source: match rng.below(5) {
+                    0 => format!("tcp://192.0.2.{}:30005", 10 + j),
+                    1 => format!("tcp://192.0.2.9:{}", 10003 + j),
+                    2 => format!("udp://0.0.0.0:{}", 1234 + j),
+                    // several channels of one relay: same host and port, the path differs
+                    _ => format!("ws://relay.example:9876/{}", 1234 + j),
+                },
                 reference,
                 style: *rng.pick(&[0u8, 0, 1, 1, 1, 2, 3, 4, 4, 4]),
                 cut_seed: rng.next_u64(),
@@ -857,12 +866,31 @@ pub fn execute(plan: &PipelinePlan, prop: &'static str) -> Outcome<PipelinePlan>
         main_loop_ended: false,
     }));
     let bp = Rc::new(RefCell::new(0u64));
+    // sources, sensors and references as main() sets them up (main.rs:326-333)
     let mut references: BTreeMap<u64, Option<Position>> = BTreeMap::new();
+    let mut sensors_map: BTreeMap<u64, crate::sensor::Sensor> = BTreeMap::new();
+    let mut serial_of: Vec<u64> = Vec::new();
+    for (j, rp) in plan.receivers.iter().enumerate() {
+        use std::str::FromStr;
+        let text = if rp.source.is_empty() { format!("tcp://192.0.2.{}:30005", 10 + j) } else { rp.source.clone() };
+        let mut source = match crate::source::Source::from_str(&text) {
+            Ok(s) => s,
+            Err(e) => {
+                out.harness_error = Some(format!("source {} rejected: {}", text, e));
+                return out;
+            }
+        };
+        source.name = Some(format!("rx{}", j));
+        source.reference = rp.reference.map(|(la, lo)| Position { latitude: la, longitude: lo });
+        serial_of.push(source.serial());
+        for sensor in app::now_or_never(crate::sensor::sensors(&source)).expect("sensors() of a plain source does not suspend") {
+            references.insert(sensor.serial, sensor.reference);
+            sensors_map.insert(sensor.serial, sensor);
+        }
+    }
     for (j, pipe) in pipes.into_iter().enumerate() {
-        let rp = &plan.receivers[j];
-        references.insert(rp.serial, rp.reference.map(|(la, lo)| Position { latitude: la, longitude: lo }));
         let txj = tx_in.clone();
-        let serial = rp.serial;
+        let serial = serial_of[j];
         sim.spawn("beast::receiver(real)", async move {
             let src = BeastSource::Verif(DataSource::Verif(Box::pin(pipe)));
             let _ = rs1090::source::beast::receiver(src, txj, serial, Some(format!("rx{}", j))).await;
@@ -902,6 +930,7 @@ pub fn execute(plan: &PipelinePlan, prop: &'static str) -> Outcome<PipelinePlan>
     });
 
     let app = Arc::new(Mutex::new(app::new_app(plan.term.0)));
+    app.try_lock().unwrap().sensors = sensors_map;
     let shadow = Arc::new(Mutex::new(app::new_app(plan.term.0)));
     let main_task = {
         let sh = shared.clone();
@@ -1014,7 +1043,6 @@ pub fn execute(plan: &PipelinePlan, prop: &'static str) -> Outcome<PipelinePlan>
             viols.push(Violation::new(c, "step-cap", v.clone()));
         }
     }
-    let serial_of: Vec<u64> = plan.receivers.iter().map(|r| r.serial).collect();
     let epoch = exec::EPOCH_S as f64;
 
     // -- C09 at the tap: per receiver, exactly the frames of its wire, in order, unmodified
@@ -1068,6 +1096,19 @@ pub fn execute(plan: &PipelinePlan, prop: &'static str) -> Outcome<PipelinePlan>
                         format!("pipeline: receiver {} was sent {} frames followed by the flush frames, only {} were handed on", j, want.len(), n_got),
                     ));
                 }
+            }
+        }
+    }
+
+    // -- receivers must be distinguishable: a reception is attributed to a sensor by its serial
+    for a in 0..n_rx {
+        for b in a + 1..n_rx {
+            if serial_of[a] == serial_of[b] {
+                viols.push(Violation::new(
+                    "c10.2-content",
+                    "receivers-indistinguishable",
+                    format!("pipeline: the sources {:?} and {:?} are given the same serial number {}: the receptions listed in a record cannot be attributed to the receiver that heard them", plan.receivers[a].source, plan.receivers[b].source, serial_of[a]),
+                ));
             }
         }
     }
